@@ -6,6 +6,7 @@ cd /verif
 ids="$*"; [ -z "$ids" ] && ids=$(ls -d seeded/C* | xargs -n1 basename)
 miss=0
 for id in $ids; do
+  if python3 -c "import json,sys;sys.exit(0 if 'retired' in json.load(open('seeded/$id/meta.json')) else 1)"; then echo "$id retired (see meta.json)"; continue; fi
   tgt=$(python3 -c "import json;print(json.load(open('seeded/$id/meta.json'))['property'])")
   out=$(bin/seeded.sh $id $tgt 2>&1 | tail -1)
   echo "$out" | cut -c1-220
